@@ -437,6 +437,21 @@ class ColorValue(Value):
                             raw.append(int(255 * item.value.value / 100))
                         check += 'P'
 
+                # validate
+                checks = {
+                    'rgb(': ('NNN', 'PPP'),
+                    'rgba(': ('NNNN', 'PPPN'),
+                    'hsl(': ('NPP',),
+                    'hsla(': ('NPPN',),
+                }
+                if check not in checks[functiontype]:
+                    self.wellformed = False
+                    self._log.error(
+                        'ColorValue has invalid %s) parameters: '
+                        '%s (N=Number, P=Percentage)' % (functiontype, check)
+                    )
+                    return
+
                 if HSL:
                     # convert to rgb
                     # h is 360 based (circle)
@@ -459,19 +474,6 @@ class ColorValue(Value):
 
                 if len(rgba) < 4:
                     rgba.append(1.0)
-
-                # validate
-                checks = {
-                    'rgb(': ('NNN', 'PPP'),
-                    'rgba(': ('NNNN', 'PPPN'),
-                    'hsl(': ('NPP',),
-                    'hsla(': ('NPPN',),
-                }
-                if check not in checks[functiontype]:
-                    self._log.error(
-                        'ColorValue has invalid %s) parameters: '
-                        '%s (N=Number, P=Percentage)' % (functiontype, check)
-                    )
 
             self._colorType = t
             self._red, self._green, self._blue, self._alpha = tuple(rgba)
